@@ -669,6 +669,38 @@ def run(ctx):
     from . import c17 as _c17
     _c17.run(_c05._filtered(_c05._Sub(ctx, 'R06o'), ('P2', 'P4')))
 
+    # ---- R06q: the opening-delimiter error carries the token it was raised for
+    ctx.rule('R06q', 'every raise of LatexDelimitedExpressionParserOpeningDelimiterNotFound passes first_tokens with at least one '
+                     'token that is not known to be None on that path: the handler in LatexDelimitedExpressionParser.parse() '
+                     'positions the recovery at first_tokens[0] (it dereferences it without a None test on the path of a '
+                     'required argument), so an empty list ends in AttributeError, which escapes the tolerant parse', 1)
+    n_od = 0
+    for mod_ in sorted(repo.modules.values(), key=lambda m_: m_.name):
+        if not mod_.name.startswith('pylatexenc.latexnodes') and not mod_.name.startswith('pylatexenc.macrospec'):
+            continue
+        for r_ in ast.walk(mod_.tree):
+            if not (isinstance(r_, ast.Raise) and isinstance(r_.exc, ast.Call)
+                    and call_name(r_.exc) == 'LatexDelimitedExpressionParserOpeningDelimiterNotFound'):
+                continue
+            n_od += 1
+            ft = kwarg(r_.exc, 'first_tokens') or (r_.exc.args[0] if r_.exc.args else None)
+            facts = {(unparse(t_), p_) for t_, p_ in atomic_facts(r_)}
+            okq = isinstance(ft, (ast.List, ast.Tuple)) and len(ft.elts) >= 1 and not any(
+                (isinstance(e_, ast.Constant) and e_.value is None) or ('%s is None' % unparse(e_), True) in facts
+                or ('%s is not None' % unparse(e_), False) in facts for e_ in ft.elts)
+            fq_ = enclosing_func(r_)
+            ctx.decide('R06q', okq, mod_, r_, 'first_tokens=%s' % short(ft, 40) if ft is not None else 'first_tokens',
+                       'LatexDelimitedExpressionParserOpeningDelimiterNotFound is raised with first_tokens=%s%s: the handler of a '
+                       'required delimited argument reads recovery_token.pos on None -> AttributeError in tolerant (and strict) '
+                       'mode, e.g. when the input ends where the argument should begin'
+                       % (short(ft, 40) if ft is not None else 'nothing',
+                          '' if isinstance(ft, (ast.List, ast.Tuple)) and not ft.elts else ' (an element is None on this path)'
+                          if isinstance(ft, (ast.List, ast.Tuple)) else ''),
+                       construct='%s: raise OpeningDelimiterNotFound' % getattr(fq_, 'name', '?'))
+    if not n_od:
+        ctx.unknown('R06q', repo.mod('pylatexenc.latexnodes.parsers._delimited'), None,
+                    'no raise of the opening-delimiter error found', construct='raise OpeningDelimiterNotFound')
+
     # ---- R06n: parsers are run through parse_content()
     ctx.rule('R06n', 'a parser object\'s parse() is called by LatexWalker.parse_content() only: that is where a parse error '
                      'is turned into recovered nodes in tolerant mode (a direct call loses the construct)', 1)
